@@ -12,7 +12,7 @@
      weed/storage/needle_map_memory.go doLoading;  needle_map_sorted_file.go NewSortedFileNeedleMap,
      weed/storage/erasure_coding/ec_encoder.go readNeedleMap (what the .sdx is built from),
      weed/storage/needle_map_metric.go reverseWalkIndexFile (refuses a size that is no multiple of 16)
-     weed/storage/volume_read.go       readNeedle;  weed/storage/store.go WriteVolumeNeedle guard
+     weed/storage/volume_read.go       readNeedle;  weed/storage/store.go WriteVolumeNeedle / DeleteVolumeNeedle guards
    The .dat file is a byte string ([list N], byte codec = model/Needle.v, needle version 3), the
    .idx file a list of entries plus the number of bytes of a torn trailing entry (those bytes
    are never parsed by the code: every reader of the index stops at the last full entry or
